@@ -62,7 +62,7 @@ Outer(id) ==
     [] id \in {"nestx", "nestxr"} -> << <<"g", Fun("G", <<"x">>, Op("*", X, Lit(2)))>> >>
     [] id = "fact1" -> << <<"mk", Fun("MK", <<"a">>, Fun("F", <<"x">>, Op("+", X, Var("a"))))>> >>
     [] id = "pvar" -> << <<"f", Fun("F0", <<"x", "y">>, F2Body)>> >>
-    [] id = "shadow" -> << <<"i", Lit(5)>> >>
+    [] id \in {"shadow", "nestshadow"} -> << <<"i", Lit(5)>> >>
     [] OTHER -> <<>>
 
 (* the function expression evaluated once per iteration *)
@@ -86,6 +86,22 @@ FExpr(id) ==
     [] id = "pvar" -> Call(Var("f"), <<Iv, Hole>>)                           \* $f($i, ?)
     [] id = "pstat" -> SCall("C", "concat", <<Iv, Hole>>)                    \* concat($i, ?)
     [] id = "ref1" -> Ref("abs", 1)                                          \* abs#1 inside the loop
+    (* NESTED inline functions: the scope variable $i is read only by a function nested in the body; the
+       outer function item leaves the scope of $i and is called where $i is unbound (or bound differently) *)
+    [] id \in {"nest2", "nestshadow"} ->
+         Fun("F", <<"x">>, Call(Fun("G", <<"y">>, Op("+", Op("+", X, Y), Iv)), <<Lit(3)>>))
+    [] id = "nest3" -> Fun("F", <<"x">>,
+                           Call(Call(Fun("G", <<"y">>, Fun("H", <<"z">>, Op("+", Op("+", X, Y), Op("+", Var("z"), Iv)))),
+                                     <<Lit(3)>>), <<Lit(4)>>))
+    [] id = "nestlet" -> Fun("F", <<"x">>, Let("g", Fun("G", <<"y">>, Op("*", Y, Iv)), Call(Var("g"), <<X>>)))
+    [] id = "nesthof" -> Fun("F", <<"x">>, SCall("S9", "for-each", <<Lits(<<1, 2>>), Fun("G", <<"y">>, Op("+", Op("+", X, Y), Iv))>>))
+    [] id = "curry" -> Fun("F", <<"a">>, Fun("G", <<"b">>, Op("+", Op("+", Var("a"), Var("b")), Iv)))   \* called $f(2)(3)
+    (* the scope variable is read only inside a constructor / quantifier / for clause / partial application *)
+    [] id = "bodyarr" -> Fun("F", <<"x">>, SCall("S10", "array:flatten", <<Arr(<<X, Iv>>)>>))           \* 3.1
+    [] id = "bodymap" -> Fun("F", <<"x">>, Op("+", MapK(Iv), X))                                        \* 3.1
+    [] id = "bodysome" -> Fun("F", <<"x">>, Some("q", Lits(<<1, 2>>), Op("eq", Op("*", Var("q"), Iv), Op("*", X, Lit(10)))))
+    [] id = "bodyfor" -> Fun("F", <<"x">>, For("q", Lits(<<1, 2>>), Op("+", Op("+", Var("q"), Iv), X)))
+    [] id = "bodypart" -> Fun("F", <<"x">>, Call(Call(Fun("G", <<"p", "q">>, Op("*", Var("p"), Var("q"))), <<Hole, Iv>>), <<X>>))
     (* parameters with DIFFERENT declared types (for partial applications with a non-leading placeholder) *)
     [] id = "typ2" -> TFun("F", <<"a", "b">>, <<"xs:string", "xs:integer">>, Cat(Var("a"), Op("+", Var("b"), Iv)))
     [] id = "typd" -> TFun("F", <<"a", "b">>, <<"xs:double", "xs:integer">>,
@@ -102,6 +118,9 @@ FExpr(id) ==
 FocusTpls == {"refpos", "refstr", "refslen", "refnlen", "refname"}
 DocTpls == {"refnlen", "refname"}          \* the items are the element children of the fixed document
 TypedTpls == {"typ2", "typd", "typ3"}
+CurryTpls == {"curry"}                     \* called with two argument lists: $f(a)(b)
+V31Tpls == {"bodyarr", "bodymap"}          \* array / map constructors: XPath 3.1 only
+CallOf(curried, f, args) == IF curried THEN Call(Call(f, <<args[1]>>), <<args[2]>>) ELSE Call(f, args)
 ScopeKind(id) == CASE id = "let1" -> "let" [] id = "fact1" -> "factory" [] id \in FocusTpls -> "map" [] OTHER -> "for"
 ItemKind(id) == CASE id = "pvar" -> "partial-inline" [] id = "pstat" -> "partial-named"
                   [] id = "ref1" -> "named" [] id \in FocusTpls -> "named-focus" [] OTHER -> "inline"
@@ -124,7 +143,7 @@ Env0(id, k) == LET e == BindOuter(Outer(id), EmptyEnv) IN
 (* events *)
 PName(h) == "p" \o ToString(h)
 HExpr(h, k) == IF h <= k THEN Index(Var("fs"), h) ELSE Var(PName(h))
-EvExpr(e) == CASE e.a = "call" -> Call(e.f, e.args)
+EvExpr(e) == CASE e.a = "call" -> CallOf(e.curry, e.f, e.args)
                [] e.a = "partial" -> Call(e.f, e.mask)
                [] e.a = "ref" -> Ref(e.name, e.arity)
 
@@ -181,6 +200,7 @@ ArgsOf(id, f, hexpr) ==
   LET k == Arity(f)
       ts == ParamTypes(f) IN
   IF id \in {"rec", "recr"} /\ f.fn = "inline" THEN {<<hexpr, Lit(a)>> : a \in {1, 2}}
+  ELSE IF id \in CurryTpls THEN {<<Lit(2), Lit(3)>>, <<Lit(3), Lit(2)>>}
   ELSE IF Typed(ts) THEN TypedTuples(ts)
   ELSE IF RootName(f) = "abs" THEN {<<Lit(Neg2)>>, <<Lit(3)>>}
   ELSE IF k = 2 THEN {<<Lit(2), Lit(3)>>, <<Lit(3), Lit(2)>>}
@@ -210,7 +230,7 @@ Record(e) == /\ ev' = Append(ev, e)
 DoCall(h, args) ==
   /\ phase = "call" /\ Len(ev) < MaxEvents /\ h \in 1..NHandles
   /\ args \in ArgChoices(h)
-  /\ Record([a |-> "call", h |-> h, f |-> HExpr(h, n), args |-> args])
+  /\ Record([a |-> "call", h |-> h, f |-> HExpr(h, n), args |-> args, curry |-> tpl \in CurryTpls])
 DoPartial(h, mask) ==
   /\ phase = "call" /\ Len(ev) < MaxEvents - 1 /\ NMakers < MaxMakers /\ tpl \in PartialIn
   /\ h \in 1..NHandles /\ HandleVal(h).fn # "partial" /\ Arity(HandleVal(h)) \in 1..3
@@ -263,7 +283,7 @@ HistoryIndependent ==
 (* (for a focus-dependent reference the position matters: iterations 1..h, the h-th result) *)
 Direct(id, h, args) ==
   IF id \in FocusTpls THEN Index(CreateWith(id, SubSeq(Vals, 1, h), Call(FExpr(id), args)), h)
-  ELSE CreateWith(id, <<Vals[h]>>, Call(FExpr(id), args))
+  ELSE CreateWith(id, <<Vals[h]>>, CallOf(id \in CurryTpls, FExpr(id), args))
 DirectVal(id, h, args) == Eval(Direct(id, h, args), BindOuter(Outer(id), EmptyEnv))
 DirectImpl(id, h, args) == LET r == EvalI(Direct(id, h, args), OuterI(Outer(id), M0)) IN
                            IF IsPoison(r.v) THEN PoisonOf(r.v) ELSE r.v
@@ -319,7 +339,12 @@ TypedLaw ==
      (tpl \in TypedTpls /\ f.fn = "partial") =>
         LET full == Fill(f.mask, a) IN
         log[LogIdx(j)] = Eval(f.base.body, Bind(f.base.env, f.base.params, ConvertAll(full, f.base.types)))
-Laws == SameCallSameResult /\ HistoryIndependent /\ ClosuresIndependent /\ Captures /\ PartialLaw /\ NamedLaw
+(* lexical scoping through nesting: the function item captured EVERY binding in scope, also one that only a
+   nested function (or a constructor / quantifier inside the body) reads *)
+NestedCaptures ==
+  (n >= 1 /\ ItemKind(tpl) = "inline" /\ tpl \notin {"fact1", "let1"}) =>
+     \A h \in 1..n : "i" \in DOMAIN Env0(tpl, n).fs[h].env
+Laws == NestedCaptures /\ SameCallSameResult /\ HistoryIndependent /\ ClosuresIndependent /\ Captures /\ PartialLaw /\ NamedLaw
           /\ FocusLaw /\ TypedLaw
 
 (* the implementation-shaped model: TLC must REFUTE this (expected counterexample) *)
@@ -329,16 +354,16 @@ AsImplementedAgrees == ilog = log
 Collides(id) == id \in {"nestx", "nestxr", "rec", "recr"}    \* a nested callee binds a name the caller reads
 DirectArgs(id, h) ==
   LET f == Env0(id, h).fs[h] IN
-  IF id \in {"rec", "recr"} THEN {}
+  IF id \in {"rec", "recr"} \cup CurryTpls THEN {}
   ELSE IF ~Typed(ParamTypes(f)) /\ Arity(f) = 2 /\ RootName(f) # "abs"
        THEN {<<Lit(2), Lit(3)>>, <<Lit(3), Lit(2)>>, <<Lit(7), Lit(2)>>, <<Lit(2), Lit(7)>>}
   ELSE ArgsOf(id, f, Nil)
 TemplateTable ==
   [id \in Templates |->
      [outer |-> Outer(id), scope |-> ScopeKind(id), kind |-> ItemKind(id), collision |-> Collides(id),
-      doc |-> id \in DocTpls, typed |-> id \in TypedTpls,
+      doc |-> id \in DocTpls, typed |-> id \in TypedTpls, v31 |-> id \in V31Tpls,
       create |-> [k \in 1..MaxN |-> CreateExpr(id, SubSeq(Vals, 1, k))],
-      direct |-> [h \in 1..MaxN |-> Direct(id, h, <<Var("__ARGS__")>>)],
+      direct |-> [h \in 1..MaxN |-> IF id \in CurryTpls THEN Nil ELSE Direct(id, h, <<Var("__ARGS__")>>)],
       directs |-> {[h |-> h, args |-> a, val |-> DirectVal(id, h, a), ival |-> DirectImpl(id, h, a)] :
                      h \in 1..MaxN, a \in UNION {DirectArgs(id, q) : q \in 1..MaxN}}]]
 ASSUME PrintT(<<"templates", TemplateTable>>)
